@@ -490,6 +490,30 @@ def case_variants(what):
                     mesh = gen.lagrange_mesh(*lag)
                     reg = fem.RegionLagrange(mesh, order=lag[0], dim=lag[1])
                     fam = "lagrange[order=%d,dim=%d]" % lag
+                # building a dual field (also with its numbering options) leaves the parent mesh and parent fields untouched
+                cells0, pts0 = mesh.cells.copy(), mesh.points.copy()
+                lin = fem.Field(reg, dim=mesh.dim, values=0.1 * mesh.points)
+                g_before = np.array(lin.grad(), copy=True)
+                for kw in ({"offset": int(rng.integers(1, 9))}, {"offset": 3, "npoints": int(mesh.npoints + 11)}, {}):
+                    try:
+                        fo = fem.FieldDual(reg, dim=1, values=0.0, **kw)
+                    except Exception as exc:
+                        run.skip("field.dual", "FieldDual(%s) not supported for this parent: %s" % (kw, type(exc).__name__))
+                        continue
+                    cv = float(rng.uniform(1, 3))
+                    fo.values[:] = cv
+                    run.compare("field.dual", "template=%s clause=dual-constant[%s]" % (fam, ",".join(sorted(kw)) or "default"), maxabs(fo.interpolate()[0] - cv), 1e-13,
+                                "a constant dual field built with numbering options is not reproduced", unit="dual:options", config=(fam, "dual-options", tuple(sorted(kw))))
+                    if np.array_equal(mesh.cells, cells0) and np.array_equal(mesh.points, pts0):
+                        run.ok("field.dual", unit="dual:parent-untouched")
+                    else:
+                        run.fail("field.dual", "template=%s clause=parent-mesh-untouched options=%s" % (fam, ",".join(sorted(kw)) or "default"),
+                                 "creating a dual field modified the parent mesh in place (connectivity or points)")
+                        mesh.update(cells=cells0, points=pts0)
+                    g = lin.grad()
+                    gs = max(float(np.abs(g).max()), 1e-300)
+                    run.compare("field.dual", "template=%s clause=parent-field-unaffected" % fam, maxabs(g - g_before), 0.0,
+                                "a field of the parent region changes its gradient after a dual field was created", unit="dual:parent-untouched")
                 fd = fem.FieldDual(reg, dim=1, values=0.0)
                 # independent oracle: a constant dual field is reproduced at every quadrature point of the parent; for
                 # vertex-based duals (the dual nodes are the parent's first nodes) a linear function is reproduced as well
@@ -577,7 +601,7 @@ def cases(tier, seed):
 def _required():
     req = ["structural:partition", "structural:zero-sum-gradient", "structural:unit-position-gradient",
            "structural:zero-position-hessian", "float32", "uniform", "lagrange:interpolate", "lagrange:grad", "lagrange:exact-integration",
-           "dual:interpolate", "dual:constant", "dual:linear", "planestrain:grad", "axisymmetric:grad", "planestrain:hess", "family-equality"]
+           "dual:interpolate", "dual:constant", "dual:linear", "dual:options", "dual:parent-untouched", "planestrain:grad", "axisymmetric:grad", "planestrain:hess", "family-equality"]
     for fam in gen.FAMILIES:
         req += [fam + ":dV>0", fam + ":volume", fam + ":rigid-motion", fam + ":interpolate", fam + ":grad", fam + ":warning"]
         if fam in HESS_FAMILIES:
